@@ -2,7 +2,7 @@
 import asyncio
 import struct
 
-from engine.hlib import check, done
+from engine.hlib import check, done, reraise, untraced
 from engine.vloop import Peer, VLoop, VTime, make_streams
 from gallia.transports import TargetURI
 from gallia.transports.hsfz import HSFZConfig, HSFZConnection, HSFZTransport
@@ -129,8 +129,7 @@ def run(script, times, split_idx, split_off, gap, ack_timeout_ms, read_timeout_u
 
     task = loop.run(main(), max_steps=60000)
     check(task.done(), "client blocks forever")
-    if task.exception() is not None:
-        raise task.exception()
+    reraise(task)
     # ---- reference ----
     comp = [times[i] + (gap if i == split_idx else 0) for i in range(n)]
     # stream order must be consistent with delivery order (one TCP stream)
@@ -203,4 +202,43 @@ def codec(b):
     r = HSFZDiagReqHeader.unpack(b[6:8])
     check(r.src_addr == b[6] and r.dst_addr == b[7], "address header fields swapped")
     check(r.pack() == b[6:8], "address header does not re-serialise")
+    return done()
+
+
+def via_connect(uri, ato_ms, t_ack):
+    """The transport is created by the real HSFZTransport.connect(<URI>) (asyncio.open_connection patched): the ack timeout the
+    user configured (milliseconds in the URI, default 1000) is the one the connection applies."""
+    loop = VLoop()
+    box = {}
+    saved = asyncio.open_connection
+
+    async def fake_open(host, port, **kw):
+        reader, writer, tr, proto = make_streams(loop)
+        box.update(tr=tr, peer=Peer(loop, reader, proto), host=host, port=port)
+        return reader, writer
+
+    async def main():
+        asyncio.open_connection = fake_open
+        try:
+            with untraced():
+                t = await HSFZTransport.connect(TargetURI(uri))
+        finally:
+            asyncio.open_connection = saved
+        box["peer"].feed_at(VTime(t_ack), F("ack"))
+        try:
+            await t.write(REQ)
+            return ("ok", loop.now.us)
+        except ConnectionError:
+            return ("connerr", loop.now.us)
+
+    task = loop.run(main(), max_steps=40000)
+    asyncio.open_connection = saved
+    check(task.done(), "write blocks forever")
+    reraise(task)
+    kind, when = task.result()
+    ato = ato_ms * 1000
+    if t_ack < ato:
+        check(kind == "ok" and when == t_ack, "write failed although the ack arrived within the configured ack timeout")
+    elif t_ack > ato:
+        check(kind == "connerr" and when == ato, "missing ack did not surface at the configured ack timeout")
     return done()
